@@ -1,12 +1,15 @@
 #!/bin/sh
 # usage: ingest.sh <worktree-id e.g. R2-C03> <seeded-id e.g. C03b>
-# copies patch+demo from /tmp/wt-<id>, confirms suite + demo on /repo (apply, run, revert), removes the worktree, runs the check
+# copies patch+demo from /tmp/wt-<id>; confirms suite + demo with and without the change on a scratch
+# copy of /repo (so that background runs that read /repo are not disturbed); removes the worktree; runs the check
 W=/tmp/wt-$1; S=/verif/seeded/$2
 mkdir -p $S; cp $W/patch.diff $S/patch.diff; cp $W/demo.py $S/demo_$2.py 2>/dev/null || cp $W/demo_*.py $S/demo_$2.py
-cd /repo && git apply $S/patch.diff || { echo "patch does not apply"; exit 2; }
-/venv/bin/python -m pytest -q -p no:cacheprovider 2>&1 | tail -1
-PYTHONPATH=/repo /venv/bin/python $S/demo_$2.py >/dev/null 2>&1; echo "demo with change exit=$?"
-git -C /repo checkout -- . ; PYTHONPATH=/repo /venv/bin/python $S/demo_$2.py >/dev/null 2>&1; echo "demo without exit=$?"
-git -C /repo status --short
+D=$(mktemp -d /tmp/ing.XXXXXX)
+(cd /repo && git archive HEAD) | tar -x -C $D
+(cd $D && PYTHONPATH=$D /venv/bin/python $S/demo_$2.py >/dev/null 2>&1; echo "demo without exit=$?")
+(cd $D && patch -p1 -s < $S/patch.diff) || { echo "patch does not apply"; rm -rf $D; exit 2; }
+(cd $D && /venv/bin/python -m pytest -q -p no:cacheprovider 2>&1 | tail -1)
+(cd $D && PYTHONPATH=$D /venv/bin/python $S/demo_$2.py >/dev/null 2>&1; echo "demo with change exit=$?")
+rm -rf $D
 git -C /repo worktree remove --force $W; git -C /repo worktree prune
 cd /verif && selftest/run_seeded.sh $2
